@@ -99,6 +99,7 @@ Section Cache.
     | BInvalid => if 400 <=? rs_status res then CNothing else CError
     | BJson resp =>
       if 400 <=? rs_status res then CNothing else
+      if negb (valid_numbers resp) then CError else                  (* parsedResponse rejects non-JSON number tokens *)
       match get_loc [PName k_errors] resp with
       | Some (JArr (_ :: _)) => CNothing
       | _ =>
